@@ -73,8 +73,8 @@ static T parseT(const std::string& s) {
 template <typename T>
 static void runPf(std::istringstream& in) {
   std::string ss, es, mode, chs;
-  int N, minItems, gran, wait, rdv, reuse;
-  long long maxThreads;
+  int N, wait, rdv, reuse;
+  long long maxThreads, minItems, gran;
   in >> ss >> es >> mode >> chs >> N >> maxThreads >> minItems >> gran >> wait >> rdv >> reuse;
   T s = parseT<T>(ss), e = parseT<T>(es);
   dispenso::ThreadPool& pool = poolFor(N);
